@@ -7,7 +7,11 @@ list comprehension over leaf tasks; then the Allocator invariants of C02 and the
 """
 import itertools
 
-from checks import sched_common as sc
+from mc import vclock
+
+vclock.install()
+
+from checks import sched_common as sc  # noqa: E402
 from mc import par
 from mc.core import Result
 
@@ -18,7 +22,8 @@ RULE = (
     "leaves drawn without repetition from 5 prototypes (names a, b, ab, d, e; types bulk/search/raw-request; tags ['x'], 'xy' as a "
     "plain string, ['x','y'], none, 'x' as a string), in the first or second challenge of a track; filter lists: every list of 1..2 of "
     "14 filters (names incl. a non-matching one, type:, tag: incl. substrings of other tags) as include and as exclude, plus "
-    "malformed specs. non-trivial = filter list selects a proper non-empty subset of the leaves; distinct = (schedule, filters, mode)"
+    "malformed specs; a set of filtered schedules is executed end to end by the real driver and workers in the race simulation (default "
+    "schedule). non-trivial = filter list selects a proper non-empty subset of the leaves; distinct = (schedule, filters, mode)"
 )
 ASSUMPTIONS = [
     "reference: include keeps leaves matching at least one filter, exclude keeps leaves matching none; name = equality, type = "
@@ -185,6 +190,89 @@ def check_case(spec, flts, exclude, challenge_pos, res):
         )
 
 
+def check_raced(spec, flts, exclude, res):
+    """end to end: the filtered schedule is executed by the real driver / workers in the race simulation (default schedule)"""
+    from esrally import config
+    from esrally.track import loader, track
+
+    from mc import explore, loadgen, racesim
+
+    racesim.setup()
+    # runnable leaves: the custom verif operation registered under per-type names, so that type: filters still discriminate
+    e = loadgen.setup()
+    for typ in ("bulk", "search", "raw-request"):
+        vt = "v-" + typ
+        try:
+            e["runner"].runner_for(vt)
+        except Exception:  # noqa
+            e["runner"].register_runner(vt, e["verif_op_fn"], async_runner=True)
+
+    def leaf(n):
+        name, typ, tags, clients = LEAVES[n]
+        op = track.Operation(name + "-op", "v-" + typ, params={"task-key": name}, param_source=loadgen.SOURCE)
+        return track.Task(name, op, tags=list(tags) if isinstance(tags, list) else tags, clients=clients, iterations=2)
+
+    schedule = []
+    for el in spec:
+        schedule.append(leaf(el[0]) if len(el) == 1 else track.Parallel([leaf(n) for n in el]))
+    ch_ = track.Challenge("c", default=True, schedule=schedule)
+    trk = track.Track(name="verif", challenges=[ch_])
+    cfg = config.Config()
+    vflts = [f.replace("type:", "type:v-") for f in flts]
+    cfg.add(config.Scope.application, "track", "exclude.tasks" if exclude else "include.tasks", vflts)
+    loader.TaskFilterTrackProcessor(cfg).on_after_load_track(trk)
+    sel = {n: any(matches(f, n) for f in flts) != exclude for el in spec for n in el}
+    v = None
+    names = []
+    if ch_.schedule:
+        r = racesim.run_race(ch_.schedule, ["localhost"], 2, lambda entry: {"service_time": 0.25, "body": {}}, explore.Chooser(()), horizon=300.0)
+        names = [n for _t, n, _m in r.received]
+        ran = {}
+        for en in r.log:
+            ran.setdefault(en["target"].split("/")[2], set()).add(int(en["target"].split("/")[3]))
+        if r.handler_errors:
+            v = ("race-handler-raises", f"{r.handler_errors[0][:2]}: {r.handler_errors[0][2][-200:]}")
+        elif r.phase != "complete":
+            v = ("filtered-track-not-runnable", f"race ended in phase {r.phase} (status {r.status}); race control saw {names}")
+        else:
+            want = {n: set(range(LEAVES[n][3])) for n, s_ in sel.items() if s_}
+            if ran != want:
+                v = ("filtered-race-runs-other-tasks", f"tasks/clients that issued requests {ran}, selected {want}")
+    res.case(
+        case_repr={"raced": True, "schedule": [list(e_) for e_ in spec], "filters": list(flts), "mode": "exclude" if exclude else "include", "race_control_saw": names}
+        if res.sample_now(101)
+        else None,
+        nontrivial_key=("race", repr(spec), flts, exclude),
+        outcome_key=("race", v[0] if v else "ok", len(names)),
+    )
+    if v:
+        res.violation(f"filter:{v[0]}:{'exclude' if exclude else 'include'}",
+                      f"raced schedule {[list(e_) for e_ in spec]} {'exclude' if exclude else 'include'}={list(flts)}: {v[1]}",
+                      {"raced": True, "spec": [list(e_) for e_ in spec], "filters": list(flts), "exclude": exclude})
+
+
+def race_cases(tier):
+    specs = [[("a",), ("b", "ab")], [("a", "e"), ("d",)], [("b", "a", "d"), ("e",)], [("ab",), ("d", "e"), ("a",)]]
+    flists = [("a",), ("tag:x",), ("type:bulk",), ("d", "tag:y"), ("zz",), ("type:search", "a")]
+    if tier == "thorough":
+        specs += [[("a",), ("b",), ("ab", "d", "e")], [("e", "d"), ("b", "a")]]
+        flists = filter_lists()[:40]
+    for sp in specs:
+        for fl in flists:
+            for exclude in (False, True):
+                yield (sp, fl, exclude)
+
+
+def _race_shard(cases):
+    import logging
+
+    logging.disable(logging.CRITICAL)
+    res = Result()
+    for sp, fl, ex in cases:
+        check_raced(sp, fl, ex, res)
+    return res
+
+
 def check_malformed(res):
     from esrally import config, exceptions
     from esrally.track import loader
@@ -232,6 +320,9 @@ def _shard(specs):
 def run(tier, seed):
     specs = schedule_specs(tier)
     res = par.pmap(_shard, par.chunks(specs, par.NPROC * 4), seed=seed)
+    rc = list(race_cases(tier))
+    res.merge(par.pmap(_race_shard, par.chunks(rc, par.NPROC), seed=seed))
+    res.extra["raced_end_to_end"] = len(rc)
     check_malformed(res)
     res.extra["schedules"] = len(specs)
     res.extra["filter_lists"] = len(filter_lists())
@@ -245,7 +336,9 @@ def replay(data):
 
     logging.disable(logging.CRITICAL)
     res = Result()
-    if "malformed" in data:
+    if data.get("raced"):
+        check_raced([tuple(e) for e in data["spec"]], tuple(data["filters"]), data["exclude"], res)
+    elif "malformed" in data:
         check_malformed(res)
     else:
         check_case([tuple(e) for e in data["spec"]], tuple(data["filters"]), data["exclude"], data["pos"], res)
